@@ -8,7 +8,7 @@ From Coq Require Import Permutation.
 Lemma slot_eqb_eq a b : slot_eqb a b = true <-> a = b.
 Proof.
   unfold slot_eqb, option_eqb. destruct a, b; try (split; [discriminate|discriminate]); try tauto.
-  rewrite Nat.eqb_eq. split; congruence.
+  rewrite N.eqb_eq. split; congruence.
 Qed.
 
 Lemma rebuild_perm s xs : Inv0 s -> Permutation xs (m_live s) ->
@@ -168,7 +168,7 @@ Qed.
 Lemma eq_self_covers s o : Inv s -> eq_self s o = true -> forall y, In y (m_live s) -> opd_mem y o = true.
 Proof.
   intros H E y Hy. unfold eq_self in E. destruct (o_iset o).
-  - apply andb_true_iff in E. destruct E as [_ E]. apply (list_eqb_eq Nat.eqb Nat.eqb_eq) in E.
+  - apply andb_true_iff in E. destruct E as [_ E]. apply (list_eqb_eq N.eqb N.eqb_eq) in E.
     unfold opd_mem. rewrite <- E. apply l_mem_In. exact Hy.
   - apply andb_true_iff in E. destruct E as [E _]. rewrite forallb_forall in E. apply E. exact Hy.
 Qed.
@@ -199,16 +199,16 @@ Proof.
     + destruct (discard_inv c s v H) as [A1 A2]. destruct (IH _ A1 N2) as [B1 B2]. cbn zeta in B1, B2.
       split; [exact B1|]. rewrite B2, A2, (l_remove_filter v _ NL). f_equal.
       * rewrite filter_comp. apply filter_ext. intros y. unfold notin, l_mem. simpl.
-        rewrite negb_orb, (Nat.eqb_sym y v). reflexivity.
+        rewrite negb_orb, (N.eqb_sym y v). reflexivity.
       * apply filter_ext_in. intros y Hy. unfold notin. f_equal.
-        apply bool_eq_iff. rewrite !l_mem_In, filter_In, negb_true_iff, Nat.eqb_neq.
+        apply bool_eq_iff. rewrite !l_mem_In, filter_In, negb_true_iff, N.eqb_neq.
         split; [tauto|]. intros Hin. split; [exact Hin|]. intros ->. contradiction.
     + destruct (add_inv s v H) as [A1 A2]. destruct (IH _ A1 N2) as [B1 B2]. cbn zeta in B1, B2.
       split; [exact B1|]. rewrite B2, A2. unfold l_add. rewrite M. rewrite filter_app. cbn [filter].
       replace (notin u v) with true by (symmetry; apply notin_true; exact N1).
       rewrite <- app_assoc. cbn [app]. f_equal.
       * apply filter_ext_in. intros y Hy. unfold notin, l_mem. simpl. rewrite negb_orb.
-        replace (Nat.eqb y v) with false; [reflexivity|]. symmetry. apply Nat.eqb_neq. intros ->.
+        replace (N.eqb y v) with false; [reflexivity|]. symmetry. apply N.eqb_neq. intros ->.
         apply l_mem_false in M. contradiction.
       * f_equal. apply filter_ext_in. intros y Hy. unfold notin. f_equal.
         apply bool_eq_iff. rewrite !l_mem_In, in_app_iff. simpl.
@@ -255,7 +255,7 @@ Proof.
   rewrite (H x (or_introl eq_refl)). rewrite IH; [reflexivity|]. intros y Hy. apply H. right. exact Hy.
 Qed.
 
-Lemma map_nth_seq (l : list K) : map (fun i => nth i l 0) (seq 0 (length l)) = l.
+Lemma map_nth_seq (l : list K) : map (fun i => nth i l 0%N) (seq 0 (length l)) = l.
 Proof.
   induction l as [|x l IH]; [reflexivity|]. simpl. f_equal. rewrite <- seq_shift, map_map. exact IH.
 Qed.
@@ -263,7 +263,7 @@ Qed.
 Lemma get_all_ok s : Inv0 s -> m_get_all s = Ok (m_live s).
 Proof.
   intros H. unfold m_get_all, m_len. rewrite (inv_len s H).
-  rewrite (all_ok_map_ok _ (fun i => nth i (m_live s) 0)).
+  rewrite (all_ok_map_ok _ (fun i => nth i (m_live s) 0%N)).
   - rewrite map_nth_seq. reflexivity.
   - intros i Hi. apply in_seq in Hi. apply (getitem_ok s _ i H).
     unfold norm_index. replace (0 <=? Z.of_nat i)%Z with true by (symmetry; apply Z.leb_le; lia).
@@ -274,7 +274,7 @@ Qed.
 Lemma get_all_neg_ok s : Inv0 s -> m_get_all_neg s = Ok (m_live s).
 Proof.
   intros H. unfold m_get_all_neg, m_len. rewrite (inv_len s H).
-  rewrite (all_ok_map_ok _ (fun i => nth i (m_live s) 0)).
+  rewrite (all_ok_map_ok _ (fun i => nth i (m_live s) 0%N)).
   - rewrite map_nth_seq. reflexivity.
   - intros i Hi. apply in_seq in Hi. apply (getitem_ok s _ i H).
     unfold norm_index.
@@ -341,7 +341,7 @@ Proof.
   intros H. pose proof H as [H0 _]. unfold eq_self, s_eq. destruct (o_iset o).
   - unfold m_len. rewrite (inv_len s H0).
     destruct (lK_eqb (m_live s) (o_elems o)) eqn:E; [|apply andb_false_r].
-    apply (list_eqb_eq Nat.eqb Nat.eqb_eq) in E. rewrite <- E, Nat.eqb_refl. reflexivity.
+    apply (list_eqb_eq N.eqb N.eqb_eq) in E. rewrite <- E, Nat.eqb_refl. reflexivity.
   - rewrite (contains_forallb s _ H). reflexivity.
 Qed.
 
